@@ -115,7 +115,12 @@ func startSearch(vi segment.VectorIndex, q []float32, k int64, filter bool, elig
 
 // readVecList drains a result list into sorted (doc, score) pairs.
 func readVecList(pl segment.VecPostingsList) ([]vecPair, error) {
-	itr := pl.Iterator(nil)
+	return readVecListWith(pl, nil)
+}
+
+// readVecListWith does the same through an iterator recycled from an earlier result.
+func readVecListWith(pl segment.VecPostingsList, prealloc segment.VecPostingsIterator) ([]vecPair, error) {
+	itr := pl.Iterator(prealloc)
 	var out []vecPair
 	for {
 		p, err := itr.Next()
